@@ -150,8 +150,16 @@ func CanDescend(v any) bool {
 // StructToMap converts a struct to a map using JSON tags for keys.
 // Nested structs are recursively converted to maps as well.
 func StructToMap(data any) map[string]any {
+	return structToMap(data, 0)
+}
+
+// maxStructDepth bounds the nesting of structs that are converted to maps: data that points back
+// to itself (a node whose Next is the node) would otherwise recurse until the stack is exhausted.
+const maxStructDepth = 32
+
+func structToMap(data any, depth int) map[string]any {
 	result := make(map[string]any)
-	if data == nil {
+	if data == nil || depth > maxStructDepth {
 		return result
 	}
 
@@ -167,12 +175,15 @@ func StructToMap(data any) map[string]any {
 	if rv.Kind() != reflect.Struct {
 		return result
 	}
-	return structValueToMap(rv)
+	return structValueToMap(rv, depth)
 }
 
 // structValueToMap is StructToMap for a struct value that is already at hand.
-func structValueToMap(rv reflect.Value) map[string]any {
+func structValueToMap(rv reflect.Value, depth int) map[string]any {
 	result := make(map[string]any)
+	if depth > maxStructDepth {
+		return result
+	}
 	rt := rv.Type()
 	byName := map[string]any{}
 	var embedded []map[string]any
@@ -182,7 +193,7 @@ func structValueToMap(rv reflect.Value) map[string]any {
 		if !f.IsExported() {
 			// ... but an embedded struct of an unexported type still promotes its exported fields
 			if ev, ok := embeddedStruct(f, rv.Field(i)); ok {
-				embedded = append(embedded, structValueToMap(ev))
+				embedded = append(embedded, structValueToMap(ev, depth+1))
 			}
 			continue
 		}
@@ -202,7 +213,7 @@ func structValueToMap(rv reflect.Value) map[string]any {
 
 		// Recursively convert nested structs
 		if fv.Kind() == reflect.Struct || (fv.Kind() == reflect.Ptr && fv.Type().Elem().Kind() == reflect.Struct) {
-			fieldValue = StructToMap(fieldValue)
+			fieldValue = structToMap(fieldValue, depth+1)
 		}
 
 		result[tagName] = fieldValue
@@ -276,7 +287,7 @@ func PopulateStructFields(m map[string]any, data any) {
 		if !f.IsExported() {
 			// ... but an embedded struct of an unexported type still promotes its exported fields
 			if ev, ok := embeddedStruct(f, rv.Field(i)); ok {
-				embedded = append(embedded, structValueToMap(ev))
+				embedded = append(embedded, structValueToMap(ev, 1))
 			}
 			continue
 		}
@@ -296,7 +307,7 @@ func PopulateStructFields(m map[string]any, data any) {
 
 		// Convert nested structs to maps so they can be accessed with JSON tag paths
 		if fv.Kind() == reflect.Struct || (fv.Kind() == reflect.Ptr && fv.Type().Elem().Kind() == reflect.Struct) {
-			fieldValue = StructToMap(fieldValue)
+			fieldValue = structToMap(fieldValue, 1)
 		}
 
 		// Add the field itself (for path resolution like item.inStock)
